@@ -4,13 +4,16 @@
 package c17
 
 import (
+	"context"
 	"encoding/json"
 	"errors"
 	"fmt"
 	"hash/fnv"
 	"io"
 	"math/rand"
+	"net"
 	"net/http"
+	"os"
 	goruntime "runtime"
 	"strconv"
 	"strings"
@@ -25,7 +28,7 @@ func init() {
 		ID:    "C17",
 		Level: "exploration",
 		Rule: "seeded cases = (body bytes 0..3*4096+1 biased to buffer boundaries; one case in 250 has a body of 32 KiB+1 .. 70 KiB, handed out whole or in pieces of 1000..40000 bytes) x (scripted underlying stream, one in 8 also an io.WriterTo: per-call chunk sizes incl. runs of <=50 zero-length reads, data+EOF or data+error in one call, " +
-			"scripted error before/after any byte, optional Close error; or nil Body; or http.NoBody) x (Content-Length: positive with/without header, header \"0\" or another spelling of zero (\"00\", \" 0\", \"000\") with field 0, absent (0, no header), -1) x " +
+			"scripted error before/after any byte - its VALUE drawn from a vocabulary: the harness's sentinel, io.ErrUnexpectedEOF, errors wrapping io.ErrUnexpectedEOF / io.EOF, an error whose text is 'EOF', io.ErrClosedPipe, os.ErrClosed, net.ErrClosed, http.ErrBodyReadAfterClose, io.ErrNoProgress, io.ErrShortBuffer, context.Canceled, and time-outs (context.DeadlineExceeded, os.ErrDeadlineExceeded, a net.Error with Timeout() true bare / wrapped / inside a *net.OpError) and net.Errors that are not time-outs -, optional Close error; or nil Body; or http.NoBody) x (Content-Length: positive with/without header, header \"0\" or another spelling of zero (\"00\", \" 0\", \"000\") with field 0, absent (0, no header), -1) x " +
 			"(method POST, or GET/HEAD/DELETE/OPTIONS/PUT/PATCH/TRACE, lower- or mixed-case, or empty; TransferEncoding nil or [chunked] when no length is declared: the expected answer depends on neither) x " +
 			"(operation sequence of 1..12 ops over HasBody, Read(n) n in {0,1,7,4096,10000}, Close, and W = drain with io.Copy into a plain io.Writer (uses the body's WriteTo if it has one)), followed by a fixed tail: drain to the terminal condition, Close, one read after close, second Close. " +
 			"Every operation is executed on the real request and on a byte-queue model written from the statement; each result is compared as it happens; after every HasBody, Read and copy made while the body is open the underlying stream must not have been closed (a close before the caller's Close is not 'closing the body'). " +
@@ -36,6 +39,7 @@ func init() {
 		Assumptions: []string{
 			"underlying streams never return (0,nil) more than 50 times in a row (bufio gives up with io.ErrNoProgress after 100 consecutive empty reads; streams beyond that documented limit are not judged)",
 			"underlying streams are sticky: once the terminal condition (EOF or the scripted error) was returned it is returned again by every later read, as net/http request bodies do; after Close they fail every read",
+			"whatever error value a stream fails with, it is a terminal condition and not a byte: with no length declared HasBody is true exactly when a byte precedes it in what is still undelivered (a time-out is no exception: 'at least one byte can be read' is false when the next read yields no byte), and the reader of the body must get that very value (errors.Is) after the last byte; only io.EOF itself is a clean end",
 			"ContentLength field and Content-Length header are coherent, as net/http produces them (positive field with or without header; header \"0\" - or \"00\", \" 0\", \"000\", which net/http also accepts and keeps verbatim - with field 0: a declared zero length; no header with field 0 or -1)",
 			"the answer of HasBody after Close is not judged (the statement is silent); reads must still fail and the stream must not be closed again",
 			"the value returned by Close is not judged; Read with an empty buffer may return (0,nil) at any time (it can return no stale data)",
@@ -70,6 +74,11 @@ type Script struct {
 	TermWithData bool `json:"term_with_data,omitempty"`
 	// CloseErr: Close returns an error.
 	CloseErr bool `json:"close_err,omitempty"`
+	// Err names the error VALUE the stream fails with (ErrAt >= 0), see termValues: "" is the harness's own
+	// sentinel, the others are values real request bodies end with (a truncated body, a closed pipe, a cancelled
+	// context, a read deadline ...). Whatever the value, it is a terminal condition that is not a byte: the answer
+	// of HasBody does not depend on it, and the very value must come back to the reader of the body.
+	Err string `json:"err,omitempty"`
 }
 
 // Regen identifies a generated batch (crash witness of a hot loop batch).
@@ -115,6 +124,63 @@ var (
 	errStreamClosed = errors.New("scripted stream: read after close")
 	errCloseFailed  = errors.New("scripted close failure")
 )
+
+// timeoutErr is a net.Error whose Timeout() is true (what a connection reports once its read deadline has passed);
+// tempErr one whose Timeout() is false.
+type timeoutErr struct{}
+
+func (timeoutErr) Error() string   { return "scripted stream: i/o timeout" }
+func (timeoutErr) Timeout() bool   { return true }
+func (timeoutErr) Temporary() bool { return true }
+
+type tempErr struct{}
+
+func (tempErr) Error() string   { return "scripted stream: temporarily unavailable" }
+func (tempErr) Timeout() bool   { return false }
+func (tempErr) Temporary() bool { return true }
+
+// termValue is one error value a scripted stream can fail with, and the class it adds to a signature.
+type termValue struct {
+	err   error
+	class string
+}
+
+// termValues: the vocabulary of Script.Err. None of the values IS io.EOF (only io.EOF itself is a clean end of a
+// stream); each one is reported by the sticky stream at its ErrAt offset and again by every later read.
+var termValues = map[string]termValue{
+	"":                       {errScripted, ""},
+	"unexpected-eof":         {io.ErrUnexpectedEOF, "eof-like-error"}, // net/http: a body shorter than its Content-Length
+	"wrapped-unexpected-eof": {fmt.Errorf("scripted stream: body cut short: %w", io.ErrUnexpectedEOF), "eof-like-error"},
+	"wrapped-eof":            {fmt.Errorf("scripted stream: connection lost: %w", io.EOF), "eof-like-error"},
+	"eof-text":               {errors.New("EOF"), "eof-like-error"}, // reads like io.EOF, is another value
+	"closed-pipe":            {io.ErrClosedPipe, "closed-error"},
+	"os-closed":              {os.ErrClosed, "closed-error"},
+	"net-closed":             {net.ErrClosed, "closed-error"},
+	"body-read-after-close":  {http.ErrBodyReadAfterClose, "closed-error"},
+	"no-progress":            {io.ErrNoProgress, "io-error"},
+	"short-buffer":           {io.ErrShortBuffer, "io-error"},
+	"ctx-canceled":           {context.Canceled, "cancel-error"},
+	"ctx-deadline":           {context.DeadlineExceeded, "timeout-error"},
+	"os-deadline":            {os.ErrDeadlineExceeded, "timeout-error"},
+	"net-timeout":            {timeoutErr{}, "timeout-error"},
+	"wrapped-net-timeout":    {fmt.Errorf("scripted stream: read tcp: %w", timeoutErr{}), "timeout-error"},
+	"net-op-timeout":         {&net.OpError{Op: "read", Net: "tcp", Err: os.ErrDeadlineExceeded}, "timeout-error"},
+	"net-temporary":          {tempErr{}, "temporary-error"},
+	"net-op-temporary":       {&net.OpError{Op: "read", Net: "tcp", Err: tempErr{}}, "temporary-error"},
+}
+
+// termNames: the names of termValues but "", in a fixed order (generation must not depend on map order).
+var termNames = []string{"unexpected-eof", "wrapped-unexpected-eof", "wrapped-eof", "eof-text", "closed-pipe", "os-closed", "net-closed",
+	"body-read-after-close", "no-progress", "short-buffer", "ctx-canceled", "ctx-deadline", "os-deadline", "net-timeout", "wrapped-net-timeout",
+	"net-op-timeout", "net-temporary", "net-op-temporary"}
+
+// termOf is the error value of a script that fails (an unknown name in a replay file: the sentinel).
+func termOf(sc *Script) termValue {
+	if v, ok := termValues[sc.Err]; ok {
+		return v
+	}
+	return termValues[""]
+}
 
 type stream struct {
 	data     []byte // the bytes that can ever be delivered
@@ -323,6 +389,7 @@ func start(c *Case) *runner {
 	// model
 	var rest []byte
 	var term error = io.EOF
+	termFeat := ""
 	var st *stream
 	var wt *wtStream
 	var bare io.ReadCloser // the body the request came with
@@ -346,7 +413,14 @@ func start(c *Case) *runner {
 		body := []byte(c.Body)
 		if c.Stream.ErrAt >= 0 && c.Stream.ErrAt <= len(body) {
 			body = body[:c.Stream.ErrAt]
-			term = errScripted
+			tv := termOf(&c.Stream)
+			term = tv.err
+			if tv.class != "" {
+				// the class of the error value the stream ends with: a feature of the signatures that are about
+				// the terminal condition ("" for io.EOF and the sentinel: earlier witnesses keep their spelling)
+				termFeat = "/term-" + tv.class
+				cls("terminal-value/" + c.Stream.Err)
+			}
 		}
 		rest = body
 		sc := c.Stream
@@ -399,13 +473,19 @@ func start(c *Case) *runner {
 			return
 		}
 		want := declaredPositive || (!declared && len(rest) > 0)
+		// a probe that has to look at the stream and finds the terminal condition next: the value of that
+		// condition is a feature of the input ("at least one byte can be read" holds for none of them)
+		atTerm := ""
+		if !declared && len(rest) == 0 && termFeat != "" {
+			atTerm = "/probe-meets" + termFeat
+		}
 		if ans != want {
-			add(fmt.Sprintf("hasbody-%v-want-%v/%s/%s%s", ans, want, clc, kind, rqc),
-				"HasBody = %v, expected %v: method %q, TransferEncoding %q, ContentLength=%d header=%s, %d byte(s) still readable from the body; trace [%s]",
-				ans, want, method, c.TransferEncoding, c.ContentLength, hdr(c), len(rest), trace)
+			add(fmt.Sprintf("hasbody-%v-want-%v/%s/%s%s%s", ans, want, clc, kind, rqc, atTerm),
+				"HasBody = %v, expected %v: method %q, TransferEncoding %q, ContentLength=%d header=%s, %d byte(s) still readable from the body (then: %v); trace [%s]",
+				ans, want, method, c.TransferEncoding, c.ContentLength, hdr(c), len(rest), term, trace)
 		}
 		if lastHas != nil && *lastHas != ans {
-			add("hasbody-unstable/"+clc+"/"+kind+rqc, "two consecutive HasBody calls answered %v then %v (method %q, TransferEncoding %q); trace [%s]", *lastHas, ans, method, c.TransferEncoding, trace)
+			add("hasbody-unstable/"+clc+"/"+kind+rqc+atTerm, "two consecutive HasBody calls answered %v then %v (method %q, TransferEncoding %q); trace [%s]", *lastHas, ans, method, c.TransferEncoding, trace)
 		}
 		a := ans
 		lastHas = &a
@@ -505,7 +585,7 @@ func start(c *Case) *runner {
 			ok = errors.Is(err, term)
 		}
 		if !ok {
-			add("wrong-terminal/want-"+termName()+"/"+clc+"/"+kind, "after the last body byte Read(%d) returned %v, expected %v; trace [%s]", n, err, term, trace)
+			add("wrong-terminal/want-"+termName()+"/"+clc+"/"+kind+termFeat, "after the last body byte Read(%d) returned %v, expected %v; trace [%s]", n, err, term, trace)
 		}
 		return true
 	}
@@ -581,7 +661,7 @@ func start(c *Case) *runner {
 			ok = errors.Is(err, term)
 		}
 		if !ok {
-			add("copy-wrong-terminal/want-"+termName()+"/"+clc+"/"+kind, "io.Copy from the body delivered every byte and then returned %v, expected %s; trace [%s]", err, wantCopyErr(term), trace)
+			add("copy-wrong-terminal/want-"+termName()+"/"+clc+"/"+kind+termFeat, "io.Copy from the body delivered every byte and then returned %v, expected %s; trace [%s]", err, wantCopyErr(term), trace)
 		}
 	}
 
@@ -1136,6 +1216,7 @@ func minimise(c *Case, sig string) *Case {
 	try(func(d *Case) { d.Stream.CloseErr = false })
 	try(func(d *Case) { d.Stream.TermWithData = false })
 	try(func(d *Case) { d.Stream.ErrAt = -1 })
+	try(func(d *Case) { d.Stream.Err = "" })
 	for i := len(cur.Stream.Chunks) - 1; i >= 0 && len(cur.Stream.Chunks) <= 80; i-- {
 		i := i
 		if i < len(cur.Stream.Chunks) {
@@ -1171,6 +1252,9 @@ func fingerprint(c *Case) string {
 	}
 	if c.BodyKind == "stream-wt" {
 		fmt.Fprint(h, "wt|")
+	}
+	if c.Stream.ErrAt >= 0 && c.Stream.Err != "" {
+		fmt.Fprint(h, "err=", c.Stream.Err, "|")
 	}
 	fmt.Fprintf(h, "%d|%v|%d|%d|%v|%v|%s|%s", len(c.Body), c.Stream.Chunks, c.Stream.Tail, c.Stream.ErrAt, c.Stream.TermWithData, c.Stream.CloseErr, clClass(c), strings.Join(c.Ops, ","))
 	return strconv.FormatUint(h.Sum64(), 16)
@@ -1594,8 +1678,34 @@ func batchRand(seed int64, shard, batch int) *rand.Rand {
 	return rand.New(rand.NewSource(int64(h.Sum64() & 0x7fffffffffffffff)))
 }
 
+// termRand: the PRNG the error values of a batch are drawn from; a stream of its own, so that the batch is
+// what it was in everything else.
+func termRand(seed int64, shard, batch int) *rand.Rand {
+	h := fnv.New64a()
+	fmt.Fprintf(h, "C17|error-values|%d|%d|%d", seed, shard, batch)
+	return rand.New(rand.NewSource(int64(h.Sum64() & 0x7fffffffffffffff)))
+}
+
+// drawTerm gives every failing stream of the case (of every request of a history) an error value: the sentinel
+// in one case of four, else one of termNames.
+func drawTerm(r *rand.Rand, c *Case) {
+	if c.History != nil {
+		for i := range c.History.Reqs {
+			drawTerm(r, &c.History.Reqs[i])
+		}
+		return
+	}
+	if (c.BodyKind != "stream" && c.BodyKind != "stream-wt") || c.Stream.ErrAt < 0 {
+		return
+	}
+	if k := r.Intn(len(termNames) + len(termNames)/3 + 1); k < len(termNames) {
+		c.Stream.Err = termNames[k]
+	}
+}
+
 func runBatch(m *mon.M, g *Regen) {
 	r := batchRand(g.Seed, g.Shard, g.Batch)
+	rt := termRand(g.Seed, g.Shard, g.Batch)
 	n := g.Count
 	if n <= 0 || n > batchSize {
 		n = batchSize
@@ -1603,11 +1713,14 @@ func runBatch(m *mon.M, g *Regen) {
 	for i := 0; i < n; {
 		if r.Intn(historyOneIn) == 0 {
 			c := genHistory(r)
+			drawTerm(rt, c)
 			runCase(m, c)
 			i += len(c.History.Reqs)
 			continue
 		}
-		runCase(m, genCase(r))
+		c := genCase(r)
+		drawTerm(rt, c)
+		runCase(m, c)
 		i++
 	}
 }
